@@ -273,6 +273,7 @@ structure KImg where
   hasData : Bool := false    -- sixel: `s.buf.Len() != 0`
   uploaded : Bool := false   -- `k.uploaded`
   pending : Nat := 0         -- encodings accumulated in `k.buf` (Resize appends, the upload resets)
+  need : Bool := false       -- oracle side: the implementation reported a successful encode not yet seen in `U=`
 
 structure St where
   active : Bool := false
@@ -442,7 +443,8 @@ def kstep (s : St) (op : List String) (impl : String) : St × String :=
             else (s!"{cw} {chh} px={pw}x{ph} cell={gw}x{gh}", { k with mw := cw, mh := chh, uploaded := false, pending := k.pending + 1 })
           | .error _ => ("panic", k)
         let (verdict, cw, chh) := resizeVerdict s.xpix s.cols s.ypix s.rows k.wPix k.hPix w h impl
-        (s.setImg n { k1 with iw := cw, ih := chh }, s!"{mcanon}\t{impl}\t{verdict}")
+        let encoded := impl ≠ "panic" ∧ !(fields impl).contains "noencode"
+        (s.setImg n { k1 with iw := cw, ih := chh, need := k1.need || encoded }, s!"{mcanon}\t{impl}\t{verdict}")
     | _, _, _ => (s, bad)
   | "kdraw" :: n :: c :: r :: win =>
     match natList? [n, c, r], (match win with | [] => some ((-1 : Int), (-1 : Int)) | [a, b] => (match a.toInt?, b.toInt? with | some a, some b => some (a, b) | _, _ => none) | _ => none) with
@@ -485,6 +487,18 @@ def kstep (s : St) (op : List String) (impl : String) : St × String :=
       let mcanon := s!"D={showList showPshort (out.deletes.filter fun p => !isSixel p.id)} W={showList showW out.writes} U={showStrs ups} {snap ps}"
       let frame : Frame := ⟨s.cur, s.pending || isRefresh⟩
       let verdict := renderVerdict isSixel s.prev frame impl
+      -- upload oracle (on the implementation's `U=` and `W=`): image data goes out with the first transmitted placement after a
+      -- successful encode, and not again while the image is unchanged
+      let implU := ((getField impl "U").getD []).filterMap String.toNat?
+      let implW := ((getField impl "W").getD []).filterMap fun e => ((e.splitOn "@").head?).bind String.toNat?
+      let needOf (id : Nat) : Bool := (s.imgs[id - 1]?).any (·.2.need)
+      let upVerdict :=
+        match implU.find? (fun id => !needOf id), implW.find? (fun id => needOf id && !implU.contains id) with
+        | some id, _ => s!"FAIL image {id} retransmitted although unchanged"
+        | _, some id => s!"FAIL image {id} placed but its new data not transmitted"
+        | _, _ => "ok"
+      let verdict := if verdict = "ok" then upVerdict else verdict
+      let imgs := imgs.zipIdx.map fun (p, i) => if implU.contains (i + 1) then (p.1, { p.2 with need := false }) else p
       ({ s with ps := ps, imgs := imgs, prev := s.cur, pending := false }, s!"{mcanon}\t{impl}\t{verdict}")
     else (s, bad)
   | _ => (s, bad)
